@@ -495,6 +495,9 @@ def monitor(log, spec):
                                 if not (resp.is_data and not resp.payload):
                                     fail("C07", k, "c07-status-in-not-answered",
                                          "status IN of a fresh %r transfer not answered with a ZLP (old address %d)" % (t.su, addr))
+                            elif first and t.clean and t.length != 0 and not t.unsupported and resp.is_none:
+                                fail("C07", k, "c07-status-in-after-out-data-not-answered",
+                                     "the status IN after the OUT data stage of a fresh %r transfer got no answer" % (t.su,))
                             if resp.is_data and not resp.payload:
                                 t.status_zlp_pending = True
                 if ep == 0 and pid in (O, P) and cur is not None and cur.in_data:
